@@ -1,13 +1,32 @@
-"""'Arguments are not modified' oracle for plain numeric modules (C07, C08).
+"""Call-level oracles for plain numeric modules (C07, C08, C09).
 
-Guarded(module, ctx) behaves like the module, but every function call keeps a
-copy of each ndarray argument (also inside tuple/list arguments and keyword
-arguments) and reports ``inputs-modified/<function>`` when an argument is not
-bit-identical afterwards.  A conversion that works in place on the caller's
-array returns the right values for the single call and corrupts every later
-use of that array, which no value oracle on the results can see.
+Guarded(module, ctx) behaves like the module, but around every function call
+
+  * keeps a copy of each ndarray argument (also inside tuple/list arguments
+    and keyword arguments) and reports ``inputs-modified/<function>`` when an
+    argument is not bit-identical afterwards (a conversion that works in place
+    on the caller's array is right for the single call and corrupts every
+    later use of that array);
+  * keeps the ndarray results of the last few calls of every function together
+    with copies and reports ``result-changed-later/<function>`` when a result
+    handed out earlier is no longer bit-identical after a later call, and
+    ``result-shares-memory/<function>`` when a new result shares memory with a
+    result handed out earlier (results that are views of the call's own
+    arguments are exempt: passing an argument through is not hidden state);
+  * compares numpy's floating-point error state (np.geterr, np.geterrcall) and
+    the warnings filters before and after the call - whether it returned or
+    raised - and reports ``global-state-changed/<function>`` (the state is put
+    back, so that later cases of the same process are not affected).
+
+One Guarded object lives for one case, so what it remembers never depends on
+earlier cases.
 """
+import collections
+import warnings
+
 import numpy as np
+
+KEEP = 3
 
 
 def _arrays(args, kw):
@@ -22,10 +41,38 @@ def _arrays(args, kw):
     return found
 
 
+def _result_arrays(out):
+    if isinstance(out, np.ndarray):
+        return [out]
+    if isinstance(out, (tuple, list)):
+        return [o for o in out if isinstance(o, np.ndarray)]
+    return []
+
+
+def _same(arr, old):
+    return (arr.dtype == old.dtype and arr.shape == old.shape
+            and arr.tobytes() == old.tobytes())
+
+
+def _state():
+    return (np.geterr(), np.geterrcall(), list(warnings.filters))
+
+
 class Guarded:
     def __init__(self, module, ctx):
         self._module = module
         self._ctx = ctx
+        self._kept = {}      # function name -> deque of (arrays, copies)
+
+    def _check_kept(self, later):
+        for name, dq in self._kept.items():
+            for arrs, copies in dq:
+                for k, (arr, old) in enumerate(zip(arrs, copies)):
+                    self._ctx.check(_same(arr, old),
+                                    "result-changed-later/" + name, lambda: (
+                        "result %d of an earlier %s call changed when %s was "
+                        "called afterwards: it was %r, now it is %r"
+                        % (k, name, later, old.tolist(), arr.tolist())))
 
     def __getattr__(self, name):
         obj = getattr(self._module, name)
@@ -34,14 +81,45 @@ class Guarded:
         ctx = self._ctx
 
         def call(*args, **kw):
-            kept = [(key, arr, arr.copy()) for key, arr in _arrays(args, kw)]
-            out = obj(*args, **kw)
+            inputs = _arrays(args, kw)
+            kept = [(key, arr, arr.copy()) for key, arr in inputs]
+            before = _state()
+            try:
+                out = obj(*args, **kw)
+            finally:
+                after = _state()
+                if after != before:
+                    np.seterr(**before[0])
+                    np.seterrcall(before[1])
+                    warnings.filters[:] = before[2]
+                    ctx.fail("global-state-changed/" + name, (
+                        "%s left global state behind: np.geterr() %r -> %r, "
+                        "errcall %r -> %r, %d -> %d warnings filters"
+                        % (name, before[0], after[0], before[1], after[1],
+                           len(before[2]), len(after[2]))))
             for key, arr, old in kept:
-                same = (arr.dtype == old.dtype and arr.shape == old.shape
-                        and arr.tobytes() == old.tobytes())
-                ctx.check(same, "inputs-modified/" + name, lambda: (
-                    "%s changed its argument %s in place: before %r, after %r"
-                    % (name, key, old.tolist(), arr.tolist())))
+                ctx.check(_same(arr, old), "inputs-modified/" + name,
+                          lambda: "%s changed its argument %s in place: "
+                          "before %r, after %r" % (name, key, old.tolist(),
+                                                   arr.tolist()))
+            self._check_kept(name)
+            new = [a for a in _result_arrays(out) if a.size and not any(
+                np.may_share_memory(a, arr) and np.shares_memory(a, arr)
+                for _, arr in inputs)]
+            for a in new:
+                for other, dq in self._kept.items():
+                    for arrs, _ in dq:
+                        for b in arrs:
+                            ctx.check(not (np.may_share_memory(a, b)
+                                           and np.shares_memory(a, b)),
+                                      "result-shares-memory/" + name, lambda: (
+                                "a result of %s shares memory with a result "
+                                "that an earlier %s call handed out"
+                                % (name, other)))
+            if new:
+                dq = self._kept.setdefault(
+                    name, collections.deque(maxlen=KEEP))
+                dq.append((new, [a.copy() for a in new]))
             return out
         call.__name__ = getattr(obj, "__name__", name)
         return call
